@@ -37,7 +37,7 @@ LEVEL_TEXT.update({
     'C16': 'Unbounded deductive proof (Verus) on the real variable store: get_or_new (three scopes), unset and push_context preserve the representation invariant from every state and agree with the naive stack-of-maps scoping model (innermost definition visible, lower contexts untouched, only volatile definitions dropped, read-only never unset or assigned); an inductive invariant over all histories of these operations, which is what the property quantifies over. the same for pop_context (locals vanish, lower definitions persist), for iteration by scope and (one direction) for the exported environment; the interpreter\'s use of scopes is not decided.',
 })
 LEVEL_TEXT.update({
-    'C14': 'Kernel only. Unbounded deductive proof (Verus) that the pipe buffer of the simulated system is a FIFO queue of bounded capacity: writes append (atomically when small, piecewise when larger than the room), reads remove from the front, nothing is lost, duplicated or reordered, for every payload size. The interleaving half of the property (wake-ups, select, read/write-all loops) is outside what function contracts decide and is not claimed.',
+    'C14': 'Kernel only. Unbounded deductive proof (Verus) that the pipe buffer of the simulated system is a FIFO queue of bounded capacity: writes append (atomically when small, piecewise when larger than the room), reads remove from the front, nothing is lost, duplicated or reordered, for every payload size. The interleaving half of the property (wake-ups, select, read/write-all loops) is outside what function contracts decide and is not claimed. Also proved (unit rwall): the write_all / read_all loops over partial transfers deliver the data completely, exactly once and in order against an assumed synchronous model of read/write on a non-blocking descriptor.',
 })
 LEVEL_TEXT.update({
     'C20': 'Bounded check (Kani, concrete enumeration, one harness per argument vector) of the generic option parser against a reference parser written from XBD 12.2: the right level for a string-manipulating function that neither verifier can take symbolically; per-built-in equivalence is whole-system and not claimed.',
@@ -96,10 +96,10 @@ TECH.update({
 })
 
 NOTE.update({
-    'C14': 'Decides the object-level half of C14 only. Trusted: Verus/Z3, assumed contracts of VecDeque/Vec extend and friends, placeholder types for wakers. Not covered: OpenFileDescription, concurrency.rs, rw_all.rs, command substitution, here-documents, regular files.',
+    'C14': 'Decides the object-level half of C14 only. Trusted: Verus/Z3, assumed contracts of VecDeque/Vec extend and friends, placeholder types for wakers. Not covered: OpenFileDescription, concurrency.rs, rw_all.rs, command substitution, here-documents, regular files. Unit rwall: Read/Write are an assumed synchronous model, await points dropped, the non-blocking guard is not modelled.',
 })
 TECH.update({
-    'C14': 'contract-based deductive verification (Verus, Z3) of FileBody::poll_read / poll_write and the readiness predicates on FIFOs',
+    'C14': 'contract-based deductive verification (Verus, Z3) of FileBody::poll_read / poll_write and the readiness predicates on FIFOs, and of the write_all / read_all_to loops over partial transfers',
 })
 
 
